@@ -52,6 +52,12 @@ def gen_case(rng, tier, i):
     ctor = {"periodic": periodic,
             "boundary": _spelling(rng, names, lambda: rng.choice(RULES)),
             "fill_value": _spelling(rng, names, lambda: fillv(rng))}
+    for k in ("boundary", "fill_value"):
+        # a Grid-level mapping may carry an explicit None for an axis ("nothing chosen here")
+        if isinstance(ctor[k], dict) and rng.random() < 0.3:
+            for n in names:
+                if rng.random() < 0.5:
+                    ctor[k][n] = None
     dims = []
     present = []
     for a in layout.axes:
@@ -75,8 +81,14 @@ def gen_case(rng, tier, i):
             "fill_value": _spelling(rng, names, lambda: fillv(rng)),
             "widths": widths,
             "op": rng.choice(["diff", "interp"]), "op_axis": rng.choice([n for n, _ in present])}
-    return {"layout": {"axes": layout.axes, "extra": layout.extra}, "ctor": ctor,
-            "dims": [d for d, _ in dims], "data": data.tolist(), "call": call}
+    vals = data.reshape(-1).tolist()
+    nan_data = rng.random() < 0.1
+    if nan_data:
+        # missing values in the data: every original value stays in place - also a missing one
+        for _ in range(rng.randint(1, 3)):
+            vals[rng.randrange(len(vals))] = None
+    return {"layout": {"axes": layout.axes, "extra": layout.extra}, "ctor": ctor, "nan_data": nan_data,
+            "dims": [d for d, _ in dims], "data": np.array(vals, dtype=object).reshape(data.shape).tolist(), "call": call}
 
 
 def enc_per(p):
@@ -130,7 +142,7 @@ def eval_case(case, drv):
         # so that a constructor deviation is reported once (as `ctor`) and not smeared over pad/op
         gaxes = [(n, i_ctor[n][0], frac_of(i_ctor[n][1]), dict(layout.axis(n)["coords"]), {}) for n in names]
         da = xr.DataArray(np.array(case["data"], dtype=float).reshape(
-            [ds.sizes[d] for d in case["dims"]]), dims=case["dims"], name="phi")
+            [ds.sizes[d] for d in case["dims"]]), dims=case["dims"], name="phi")      # None -> nan
         call = case["call"]
         from xgcm.padding import pad
         bw = {k: tuple(v) for k, v in call["widths"].items()}
@@ -143,14 +155,18 @@ def eval_case(case, drv):
         wenc = str(len(bw)) + "".join(f" {a} {lo} {hi}" for a, (lo, hi) in bw.items())
         preq = (f"{enc_grid(gaxes)} {enc_arr(case['dims'], da.values)} {wenc} "
                 f"{enc_kw(call['boundary'])} {enc_kw(call['fill_value'], enc_rat)}")
-        model = parse_res(drv.ask("c02pad " + preq))
-        spec = parse_res(drv.ask("c02padspec " + preq))
+        model = denan(parse_res(drv.ask("c02pad " + preq)))       # padding only moves values: sentinel <-> missing
+        spec = denan(parse_res(drv.ask("c02padspec " + preq)))
         ok_m = agree(impl, model)
         ok_s = agree(impl, spec if spec[0] == "ok" else ("err", None))
         if not (ok_m and ok_s):
             detail["pad"] = {"impl": short(impl), "model": short(model), "spec": short(spec)}
         corr_ok &= ok_m
         prop_ok &= ok_s
+        if case.get("nan_data"):
+            # the operator arithmetic on missing values is outside the rational model: pad only
+            return {"corr_ok": bool(corr_ok), "prop_ok": bool(prop_ok), "branch": "ctor+pad:missing-values",
+                    "detail": detail or None, "ctor": {"impl": i_ctor, "model": m_ctor, "spec": s_ctor}}
         # an operator call with the same kwargs
         kw = {}
         if call["boundary"] is not None:
@@ -175,6 +191,14 @@ def eval_case(case, drv):
         branch = "ctor+pad+" + call["op"]
     return {"corr_ok": bool(corr_ok), "prop_ok": bool(prop_ok), "branch": branch,
             "detail": detail or None, "ctor": {"impl": i_ctor, "model": m_ctor, "spec": s_ctor}}
+
+
+def denan(r):
+    from common import NAN, NAN_SENTINEL
+    if r[0] != "ok":
+        return r
+    dims, shape, data = r[1]
+    return ("ok", (dims, shape, [NAN if v == NAN_SENTINEL else v for v in data]))
 
 
 def frac_of(tok):
